@@ -12,6 +12,10 @@ threading.Lock / RLock / user object) x (getitem default / getter* / custom 4-ar
 asarray x (sync / threaded scheduler) over a shared-cursor backend; deterministic oracle: every
 non-empty backend read happens while the lock given to from_array is held, nothing overlaps, the
 lock is free afterwards; plus direct calls of getter / getter_nofancy / getter_inline.
+Rebuilt reads (props_ext/c24_rebuild.py): sources that store ENCODED samples read through a decoding `getitem=`; every rewrite
+that rebuilds the source node must still read through the same getitem / lock / asarray / fancy / inline_array / meta
+(signatures from_array-rebuild:values[:read-without-getitem], :getter-handed-other-lock/-asarray, :option-not-carried:<opt>, …).
+The random program search also draws decoding getters (d4 / d2).
 """
 from __future__ import annotations
 
@@ -614,7 +618,26 @@ def correspondence(ctx):
 # --------------------------------------------------------------------------- programs (search)
 
 KW_LOCKS = ("none", "none", "true", "obj")
-KW_GET = ("none", "none", "none", "g2", "g4")
+KW_GET = ("none", "none", "none", "g2", "g4", "d4", "d2")
+DEC_OFFSET = 1000
+
+
+def d4(a, b, asarray=True, lock=None):
+    """custom getitem that DECODES the stored samples (offset + sign flip), full getter signature"""
+    _GETLOG.append(b)
+    if lock:
+        lock.acquire()
+    try:
+        return DEC_OFFSET - np.asarray(a[b])
+    finally:
+        if lock:
+            lock.release()
+
+
+def d2(a, b):
+    """decoding getitem(a, index)"""
+    _GETLOG.append(b)
+    return DEC_OFFSET - np.asarray(a[b])
 
 
 def gen_case(ctx, maxchain):
@@ -677,10 +700,11 @@ def run_case(case):
         src = arr.copy()
     else:
         grid = tuple(case["grid"]) if case.get("grid") else None
+        stored = DEC_OFFSET - arr if case["getitem"] in ("d4", "d2") else arr  # decoded on read by d4 / d2
         if grid is not None and case.get("shards"):
-            src = RecSource(arr, grid=tuple(1 for _ in shape), shards=grid)
+            src = RecSource(stored, grid=tuple(1 for _ in shape), shards=grid)
         else:
-            src = RecSource(arr, grid=grid)
+            src = RecSource(stored, grid=grid)
     kw = {}
     if case["lock"] == "true":
         kw["lock"] = True
@@ -690,6 +714,8 @@ def run_case(case):
         kw["getitem"] = g2
     elif case["getitem"] == "g4":
         kw["getitem"] = g4
+    elif case["getitem"] in ("d4", "d2") and case["src"] != "numpy":
+        kw["getitem"] = d4 if case["getitem"] == "d4" else d2
     if case["asarray"] is not None:
         kw["asarray"] = case["asarray"]
     if not case["fancy"]:
@@ -1496,7 +1522,12 @@ def run(ctx, replay=None):
         "storage grid / <= 3 (quick) steps of slices, ints, rechunks, adds; the backend records inside every non-empty read "
         "whether the lock handed to from_array is held (by the calling thread for RLock / user lock) - deterministic, not "
         "timing based; distinct by (mode, lock, getitem, asarray, scheduler, op set). getter functions: direct calls "
-        "fn(store, key, asarray, lock) with keys containing None / ints / stepped slices, all three calling styles"
+        "fn(store, key, asarray, lock) with keys containing None / ints / stepped slices, all three calling styles. "
+        "rebuilt reads (harness/props_ext/c24_rebuild.py): every rewrite that rebuilds the source node (rechunk of every spec kind "
+        "incl. auto / balance / storage-grid multiples, slice, int, both orders, below elemwise / transpose, next to take, "
+        "chains) x every read transform (getitem= callables that DECODE the stored samples: offset, scale, cast; 4- and "
+        "2-argument; default getter) x lock / asarray / fancy / inline_array / meta / optimize values; oracles: NumPy on the "
+        "decoded array, bounds, the asarray/lock handed to the getter, read options of the rebuilt source nodes"
     )
     ctx.assumptions = [
         "NumPy basic indexing / slice assignment is a per-axis product (the theorems are per axis)",
@@ -1510,7 +1541,15 @@ def run(ctx, replay=None):
     if replay is not None:
         case = replay.get("case", replay)
         prog = case.get("program")
-        if prog is not None and prog.get("stream") in ("locked", "getter"):
+        if prog is not None and prog.get("stream") == "rebuild":
+            from harness.props_ext.c24_rebuild import run_rebuild_case
+
+            sig, det = run_rebuild_case(prog)
+            if sig is not None:
+                ctx.fail(f"from_array-rebuild:{sig}", {"kind": "program", "program": prog, "details": det}, "replayed program still fails")
+            ctx.count(("replay",))
+            ctx.sample({"program": prog, "outcome": sig or "ok"})
+        elif prog is not None and prog.get("stream") in ("locked", "getter"):
             locked = prog["stream"] == "locked"
             sig, det = run_locked_case(prog) if locked else run_getter_case(prog)
             if sig is not None:
@@ -1529,6 +1568,9 @@ def run(ctx, replay=None):
     # the direct getter calls go first: they cannot block, and tell whether acquire/release are balanced
     unsafe = getter_search(ctx)
     unsafe = locked_search(ctx, getter_unsafe=unsafe)
+    from harness.props_ext.c24_rebuild import rebuild_search
+
+    rebuild_search(ctx)
     search(ctx, no_locks=unsafe)
     if ctx.disagreements or ctx.audit.get("broken"):
         targeted(ctx)
